@@ -352,12 +352,12 @@ func c09PreAllocRace(w *ndWriter, wait time.Duration) {
 		var start int32
 		for g := 0; g < 6; g++ {
 			wg.Add(1)
-			go func() {
+			go func(g int) {
 				defer wg.Done()
 				for atomic.LoadInt32(&start) == 0 {
 				}
-				e.pool.PreAllocWorkerSize(2)
-			}()
+				e.pool.PreAllocWorkerSize([]int{2, 7}[g%2]) // also far beyond the maximum: the bound holds all the same
+			}(g)
 		}
 		acc := map[int]bool{}
 		var held []*c09Job
